@@ -7,7 +7,7 @@ set -u
 PATCH=$(readlink -f $1); PROP=$2; TIER=${3:-quick}
 ROOT=/tmp/seedrun/slot${SLOT:-0}
 mkdir -p $ROOT
-HEAD=$(git -C /repo rev-parse HEAD)
+HEAD=${BASE:-$(git -C /repo rev-parse HEAD)}
 if [ ! -d $ROOT/repo ]; then git -C /repo worktree prune; git -C /repo worktree add -q --detach $ROOT/repo $HEAD || exit 2; fi
 ( cd $ROOT/repo && git checkout -q -- . && git clean -fdq && git checkout -q --detach $HEAD ) || exit 2
 ( cd $ROOT/repo && git apply $PATCH ) || { echo "PATCH DOES NOT APPLY"; exit 2; }
